@@ -1,0 +1,123 @@
+//go:build verif
+
+// Trace records for the verification harness (/verif). Compiled only with -tags verif; the calls in the production files
+// are empty inlinable functions otherwise (verif_trace_off.go).
+package proxycore
+
+import (
+	"sync"
+	"sync/atomic"
+)
+
+// VerifRec is one atomic step of the request path: a stream table operation (push, pop, notify, closing, table) or a
+// step of a request's life (start, host, decision, reply, onclose).
+type VerifRec struct {
+	Seq     int
+	Kind    string
+	Table   int64 // pending table (one per backend connection); 0 = none
+	Stream  int64
+	Req     int64 // the client's request the step belongs to (for a prepareRequest: its original request); 0 = an internal request
+	ReqKind int64 // 0 client request, 1 internal request, 2 prepareRequest, 3 prepareRequest whose original request is a prepareRequest
+	Obj     int64 // another object of the step (the client of a request)
+	A, B, C int64
+	S       string
+}
+
+var verifTr struct {
+	mu   sync.Mutex
+	on   atomic.Bool
+	recs []VerifRec
+	ids  map[interface{}]int64
+}
+
+// VerifTraceStart discards earlier records and starts recording.
+func VerifTraceStart() {
+	verifTr.mu.Lock()
+	verifTr.recs = nil
+	verifTr.ids = map[interface{}]int64{}
+	verifTr.mu.Unlock()
+	verifTr.on.Store(true)
+}
+
+// VerifTraceStop stops recording and returns the records in the order they were made.
+func VerifTraceStop() []VerifRec {
+	verifTr.on.Store(false)
+	verifTr.mu.Lock()
+	defer verifTr.mu.Unlock()
+	return verifTr.recs
+}
+
+func verifIDLocked(x interface{}) int64 {
+	if x == nil {
+		return 0
+	}
+	if id, ok := verifTr.ids[x]; ok {
+		return id
+	}
+	id := int64(len(verifTr.ids) + 1)
+	verifTr.ids[x] = id
+	return id
+}
+
+func verifClassifyLocked(request interface{}) (req, kind int64, s string) {
+	switch r := request.(type) {
+	case nil:
+		return 0, 0, ""
+	case string:
+		return 0, 0, r
+	case *internalRequest:
+		return 0, 1, ""
+	case *prepareRequest:
+		kind = 2
+		orig := r.origRequest
+		for {
+			if p, ok := orig.(*prepareRequest); ok {
+				kind = 3
+				orig = p.origRequest
+				continue
+			}
+			break
+		}
+		if _, ok := orig.(*internalRequest); ok {
+			return 0, kind, "internal"
+		}
+		return verifIDLocked(orig), kind, ""
+	default:
+		return verifIDLocked(request), 0, ""
+	}
+}
+
+func verifTrace(kind string, table interface{}, stream int, request interface{}) {
+	if !verifTr.on.Load() {
+		return
+	}
+	verifTr.mu.Lock()
+	req, rk, s := verifClassifyLocked(request)
+	verifTr.recs = append(verifTr.recs, VerifRec{Seq: len(verifTr.recs), Kind: kind, Table: verifIDLocked(table), Stream: int64(stream), Req: req, ReqKind: rk, S: s})
+	verifTr.mu.Unlock()
+}
+
+// VerifTraceRecord records a step of a request's life (called from package proxy).
+func VerifTraceRecord(kind string, request interface{}, obj interface{}, a, b, c int64, s string) {
+	if !verifTr.on.Load() {
+		return
+	}
+	verifTr.mu.Lock()
+	req, rk, _ := verifClassifyLocked(request)
+	verifTr.recs = append(verifTr.recs, VerifRec{Seq: len(verifTr.recs), Kind: kind, Req: req, ReqKind: rk, Obj: verifIDLocked(obj), A: a, B: b, C: c, S: s})
+	verifTr.mu.Unlock()
+}
+
+// VerifPlanKeys lists the hosts a round-robin query plan will yield from now on, in order.
+func VerifPlanKeys(qp QueryPlan) []string {
+	p, ok := qp.(*roundRobinQueryPlan)
+	if !ok {
+		return nil
+	}
+	cp := *p
+	var keys []string
+	for h := cp.Next(); h != nil; h = cp.Next() {
+		keys = append(keys, h.Key())
+	}
+	return keys
+}
